@@ -33,6 +33,10 @@ MUTANTS = [
      "      return LocalTime(unix_time, transitions_[hint - 1]);\n      }\n    }\n  }",
      "      return LocalTime(unix_time, transitions_[local_time_hint_.load(std::memory_order_relaxed) - 1]);\n      }\n    }\n  }",
      "hint validated, then read again for use"),
+    ("c13-lazy-table-in-format", "C13", "src/time_zone_format.cc",
+     "char* Format02d(char* ep, int v) {\n  *--ep = kDigits[v % 10];\n  *--ep = kDigits[(v / 10) % 10];\n  return ep;\n}",
+     "char* Format02d(char* ep, int v) {\n  static char pairs[200];\n  static bool ready = false;\n  if (!ready) {\n    for (int i = 0; i < 100; ++i) { pairs[2 * i] = kDigits[i / 10]; pairs[2 * i + 1] = kDigits[i % 10]; }\n    ready = true;\n  }\n  *--ep = pairs[2 * (v % 100) + 1];\n  *--ep = pairs[2 * (v % 100)];\n  return ep;\n}",
+     "a table built lazily on first use of format() without a guard (only racy while the process is cold)"),
     ("c14-no-lower-bracket-bt", "C14", "src/time_zone_info.cc",
      "    if (transitions_[hint - 1].unix_time <= unix_time) {\n      if (unix_time < transitions_[hint].unix_time) {",
      "    {\n      if (unix_time < transitions_[hint].unix_time) {",
